@@ -6,7 +6,7 @@ export GOFLAGS=-mod=mod GOPROXY=off
 WT=/tmp/wt-suite
 [ -d $WT ] || git -C /repo worktree add -q --detach $WT HEAD
 for NAME in "$@"; do
-  git -C $WT checkout -q --detach "$(git -C /repo rev-parse HEAD)" && git -C $WT checkout -q -- . && git -C $WT clean -fdq
+  git -C $WT reset -q --hard; git -C $WT checkout -q --detach "$(git -C /repo rev-parse HEAD)" && git -C $WT reset -q --hard && git -C $WT clean -fdq
   git -C $WT apply /verif/seeded/$NAME/patch.diff 2>/dev/null || git -C $WT apply --3way /verif/seeded/$NAME/patch.diff || { echo "$NAME: patch does not apply" | tee /verif/seeded/$NAME/suite.log; continue; }
   (cd $WT && go test -vet=off -count=1 -timeout 25m ./... 2>&1 | grep -E "^(ok|FAIL|--- FAIL|panic:)" | grep -v "no test files") > /verif/seeded/$NAME/suite.log 2>&1
   failed=$(grep -o '^--- FAIL: [A-Za-z0-9_]*' /verif/seeded/$NAME/suite.log | sed 's/--- FAIL: //' | sort -u | paste -sd'|')
@@ -16,5 +16,5 @@ for NAME in "$@"; do
     (cd $WT && go test -vet=off -count=1 -run "^($failed)\$" . 2>&1 | grep -E "^(ok|FAIL|--- FAIL)" | sed 's/^/rerun: /') >> /verif/seeded/$NAME/suite.log 2>&1
   fi
   echo "$NAME: $(grep -c '^ok' /verif/seeded/$NAME/suite.log) ok, $(grep -c '^FAIL\|^--- FAIL' /verif/seeded/$NAME/suite.log) fail"
-  git -C $WT checkout -q -- . ; git -C $WT clean -fdq
+  git -C $WT reset -q --hard; git -C $WT clean -fdq
 done
